@@ -85,3 +85,8 @@ PROP_ASSUMPTIONS = {
         "type references are exported by the harness from fields, arguments, input fields and directive definition arguments (what record_type_ref sees)",
     ],
 }
+
+# per-property files (lib/assumptions.d/Cnn.json: a JSON list of strings)
+import json as _json, os as _os, glob as _glob
+for _p in sorted(_glob.glob(_os.path.join(_os.path.dirname(_os.path.abspath(__file__)), "assumptions.d", "C*.json"))):
+    PROP_ASSUMPTIONS[_os.path.basename(_p)[:-5]] = _json.load(open(_p, encoding="utf-8"))
